@@ -1,4 +1,5 @@
 import BppProofs.Props.C15Obs
+import BppProofs.Lemmas.TreeObsReady
 /-!
 # C15 — object-level wrappers: when the calls with an edge object go through, when they are refused
 
@@ -11,6 +12,10 @@ The two executable preconditions the check evaluates on the implementation's rep
 * `setFather_refuses_foreign` — `setFather(node, father, edgeObject)` with an object attached to
   another branch than the one to the current father raises and changes nothing.  The unrepaired
   code unlinked the father and then threw.
+* `setFather_succeeds` — `setFather(node, father, edgeObject)` with two known node objects, an edge object that is
+  free or attached to the branch to the current father, and a node with at most one incoming neighbour
+  (`TW.setFatherReady`) succeeds on every state satisfying the world invariant (hence, `setFather_keeps_object`,
+  with the object attached to the new branch).
 -/
 namespace Bpp.C15
 open Bpp Bpp.Graph
@@ -52,5 +57,83 @@ theorem setFather_refuses_foreign (tw : TW) (k : Nat) (a f x : Obj) (hw : WInv t
 
 example : ((TW.init true).run exHist).addSonReady 0 11 12 102 = true := by decide
 example : ((TW.init true).run exHist).setFatherForeign 0 11 101 = true := by decide
+
+/-- `setFather` with a free edge object (or the object of the branch to the current father), two known nodes and a node
+with at most one incoming neighbour goes through -/
+theorem setFather_succeeds (tw : TW) (k : Nat) (a f x : Obj) (hw : WInv tw.w) (h : tw.setFatherReady k a f x = true) :
+    (tw.setFather k a f (some x)).1 = .ok := by
+  unfold TW.setFatherReady at h
+  cases hk : tw.w.getObs k with
+  | none => rw [hk] at h; cases h
+  | some o =>
+    rw [hk] at h
+    simp only at h
+    cases ha : AL.find a o.Ng with
+    | none => rw [ha] at h; cases h
+    | some ia =>
+      cases hf : AL.find f o.Ng with
+      | none => rw [ha, hf] at h; cases h
+      | some ifa =>
+        rw [ha, hf] at h
+        simp only [Bool.and_eq_true, Bool.or_eq_true, Bool.not_eq_true', beq_iff_eq] at h
+        obtain ⟨hx, hl⟩ := h
+        rcases hin : tw.w.g.inNeighbors ia with _ | l
+        · rw [hin] at hl; cases hl
+        rw [hin] at hl
+        have hlen : l.length ≤ 1 := by simpa using hl
+        have hi := hw.obs k o hk
+        -- the graph-level call goes through
+        obtain ⟨u, gq, hok, hobs⟩ := TW.setFatherG_succeeds hw (hi.n_live f ifa hf) hin hlen
+        obtain ⟨o1, hk1, hfresh, hcase⟩ := hobs k o hk
+        have fs := TW.setFatherG_ok hw hok
+        have hetf : tw.edgeToFather o a = (T.edgeToFather tw.w.g ia).map o.edgeFromGid := by
+          simp [TW.edgeToFather, ha]
+        rw [hetf] at hx
+        -- an attached object is the one of the branch to the current father
+        have hatt : ∀ ex, AL.find x o.Eg = some ex → T.edgeToFather tw.w.g ia = some ex := by
+          intro ex hfx
+          rcases hx with hx | hx
+          · simp [Obs.hasEdge, AL.has, hfx] at hx
+          · rcases hef : T.edgeToFather tw.w.g ia with _ | ef
+            · rw [hef] at hx; cases hx
+            · rw [hef] at hx
+              simp only [Option.map_some, Option.some.injEq] at hx
+              have hfwd : AL.find x o.Eg = some ef := by
+                unfold Obs.edgeFromGid at hx
+                split at hx
+                · cases hx
+                · exact hi.edges.fwd ef x hx
+              rw [hfx] at hfwd; injection hfwd with hfwd; rw [hfwd]
+        apply TW.setFather_ok_of hk ha hf ?_ hok fs.out hk1 ?_ (G.cons_out_some fs.winv.graph fs.out).2.1 hfresh
+        · -- the refusal test lets the object pass
+          intro ex hfx
+          refine ⟨?_, hatt ex hfx⟩
+          have hef := hatt ex hfx
+          obtain ⟨hn, hkeys⟩ := G.inNeighbors_some hin
+          rw [T.hasFather_eq, hn, ← hkeys]
+          simp only [if_true, Option.some.injEq, decide_eq_true_eq]
+          cases l with
+          | nil =>
+            exfalso
+            have : T.father tw.w.g ia = none := by rw [T.father_eq, hn, ← hkeys]; rfl
+            simp [T.edgeToFather, this] at hef
+          | cons b l' => simp
+        · -- the object is free when `associateEdge` runs
+          rcases hcase with ⟨hnone, ho1⟩ | ⟨e0, hsome, ho1⟩
+          · subst ho1
+            rcases hfx : AL.find x o1.Eg with _ | ex
+            · simp [Obs.hasEdge, AL.has, hfx]
+            · have := hatt ex hfx
+              rw [hnone] at this; cases this
+          · subst ho1
+            rcases hfx : AL.find x o.Eg with _ | ex
+            · simp [Obs.hasEdge, AL.has, deletedEdge_find_none e0 hfx]
+            · have := hatt ex hfx
+              rw [hsome] at this; injection this with this; subst this
+              simp [Obs.hasEdge, AL.has, deletedEdge_find_self (TW.edgeFromGid_of_find hi.edges hfx)]
+
+example : ((TW.init true).run exHist).setFatherReady 0 11 12 100 = true := by decide
+example : ((TW.init true).run exHist).setFatherReady 0 11 12 102 = true := by decide
+example : ((TW.init true).run exHist).setFatherReady 0 11 12 101 = false := by decide
 
 end Bpp.C15
